@@ -686,6 +686,16 @@ def gen_block(rng, kind):
         b["n"] = n = max(n, 2) if kind == "paf" else n
         insts = rand_insts(rng, m, n, h, w, 0.2, allow_empty=(kind != "paf"))
         num = m
+        if kind == "paf" and rng.random() < 0.45:
+            # an animal whose only candidate in-image node sits on / next to the image border (inside the last
+            # pixel strip, exactly on the last pixel, just outside), its other nodes outside the image: the block
+            # and the function must make the same keep / drop decision and draw the same field
+            j = rng.randrange(m)
+            e8 = F(rng.randrange(1, 8), 8)
+            x0, y0 = rng.choice([(w - 1 + e8, F(h, 2)), (F(w, 2), h - 1 + e8), (F(w - 1), F(h, 2)), (F(w, 2), F(h - 1)),
+                                 (F(w), F(h, 2)), (-e8, F(h, 2)), (F(0), F(h, 2)), (F(w, 2), -e8), (F(w, 2), F(0))])
+            out = lambda: (F(w + rng.randrange(2, 9)), F(h + rng.randrange(2, 9)))
+            insts[j] = [(x0, y0)] + [out() for _ in range(n - 1)]
         if kind in ("mcm", "paf") and rng.random() < 0.5:      # NaN padding beyond num_instances (process_lf)
             pad = rng.choice([1, 2])
             insts = insts + [[None] * n] * pad
